@@ -83,6 +83,7 @@ type FuncContract struct {
 	Consumes  []string // tokens consumed from caller by `go f()`
 	Effects   []GhostStep // ghost updates applied at function exit
 	CallAsserts []CallAssert
+	CallbackInvs []CallAssert // `callback <callee>: <invariant>`: holds before and after every invocation the callee makes of its function argument
 	AtReturn  []*Clause // asserted at every return statement of the function, locals visible
 	Locals    []ParamDef // local <name> <Go type>: if no local has that name, the unique local of that type is meant (renaming-robust)
 	Opts      map[string]string
@@ -149,7 +150,7 @@ var topKeywords = map[string]bool{"func": true, "pred": true, "def": true, "fun"
 	"owned": true, "trusted": true, "immutable": true, "alloc": true, "lockorder": true, "chan": true, "env": true, "confined": true, "lemma": true, "pkgimmutable": true, "impl": true}
 var fnKeywords = map[string]bool{"requires": true, "ensures": true, "loop": true, "invariant": true, "decreases": true,
 	"step": true, "let": true, "mode": true, "modifies": true, "ghostvar": true, "mathint": true, "thread": true,
-	"pure": true, "unroll": true, "noinline": true, "consumes": true, "opt": true, "effect": true, "atcall": true, "init": true, "exit": true, "writes": true, "local": true, "atreturn": true}
+	"pure": true, "unroll": true, "noinline": true, "consumes": true, "opt": true, "effect": true, "atcall": true, "callback": true, "init": true, "exit": true, "writes": true, "local": true, "atreturn": true}
 
 type rawDirective struct {
 	kw   string
@@ -707,6 +708,16 @@ func (cs *Contracts) loadFile(path string) error {
 					return err
 				}
 				cur.CallAsserts = append(cur.CallAsserts, CallAssert{Callee: strings.TrimSpace(d.text[:i]), Clause: c})
+			case "callback":
+				i := strings.Index(d.text, ":")
+				if i < 0 {
+					return fail("bad callback")
+				}
+				c, err := parseClause(d, strings.TrimSpace(d.text[i+1:]))
+				if err != nil {
+					return err
+				}
+				cur.CallbackInvs = append(cur.CallbackInvs, CallAssert{Callee: strings.TrimSpace(d.text[:i]), Clause: c})
 			case "effect":
 				i := strings.Index(d.text, "=")
 				if i < 0 {
